@@ -355,7 +355,7 @@ def check(ctx):
             esc = r.escape(include_raise=True)
             ctx.inst('R6', f, 'release-on-every-path', esc is None,
                      'lock acquired at line %d is not released on path %s' % (r.acq.line, g.fmt_path(esc)) if esc else 'released on all explicit paths')
-            facts = must_facts(g)
+            facts = must_facts(g, reads_generate=True)
             for n in r.held:
                 for bad in unsafe_index(n, facts[n.id]):
                     ctx.inst('R6', f, 'no-raise-under-lock:' + bad[0], False,
